@@ -1726,7 +1726,12 @@ class PutMethod(Method):
         if r is not None:
             # Item already exists; update it
             try:
-                new_etag = await r.set_body(new_contents, current_etag)
+                # Only make the write conditional if the client asked for that;
+                # an unconditional PUT must not fail with 412 because another
+                # request changed the resource in the meantime.
+                new_etag = await r.set_body(
+                    new_contents, current_etag if if_match is not None else None
+                )
             except ResourceLocked:
                 return Response(status=423, reason="Resource Locked")
             except PreconditionFailure as e:
